@@ -293,6 +293,29 @@ theorem singleton_setTestSet (op : Op) (a c : TSel) (r : Res) (s1 s2 : Bool) :
     | simp [setTestSet, setRelSetPos, test, relSetPos, relPos, Op.pick, Op.neg, minBegin, maxEnd,
           TSet.leftmost, TSet.rightmost, leftmostScan, rightmostScan]
 
+/-! ### What does not hold on sets
+
+The converses and symmetries above are theorems about pairs of ranges. On sets the code reads a relation without the
+`all` modifier as "every member of the left set stands in the relation to some member of the right set", and with
+`all` and a limit it reduces the left set to one extreme member: neither reading is symmetric. The property asks for
+the laws "for every pair of sets"; the following are the counter-examples on the model, which the harness finds on the
+implementation (`set-converse/…`, known findings of C13). -/
+
+/-- OVERLAPS on sets is not symmetric: `{[0,1)}` against `{[0,1), [1,2)}` -/
+theorem set_overlaps_not_symmetric :
+    setTestSet (.overlaps false false) ⟨[⟨0, 1⟩], false⟩ ⟨[⟨0, 1⟩, ⟨1, 2⟩], false⟩ ⟨[]⟩ = true ∧
+    setTestSet (.overlaps false false) ⟨[⟨0, 1⟩, ⟨1, 2⟩], false⟩ ⟨[⟨0, 1⟩], false⟩ ⟨[]⟩ = false := by decide
+
+/-- EMBEDS on sets is not the converse of EMBEDDED: `{[0,1)}` against `{[0,1), [3,5)}` -/
+theorem set_embeds_not_converse_of_embedded :
+    setTestSet (.embeds false false) ⟨[⟨0, 1⟩], false⟩ ⟨[⟨0, 1⟩, ⟨3, 5⟩], false⟩ ⟨[]⟩ = true ∧
+    setTestSet (.embedded false false none) ⟨[⟨0, 1⟩, ⟨3, 5⟩], false⟩ ⟨[⟨0, 1⟩], false⟩ ⟨[]⟩ = false := by decide
+
+/-- BEFORE on sets is not the converse of AFTER: `{[0,1), [6,7)}` against `{[3,4)}` -/
+theorem set_before_not_converse_of_after :
+    setTestSet (.after false false none) ⟨[⟨3, 4⟩], false⟩ ⟨[⟨0, 1⟩, ⟨6, 7⟩], false⟩ ⟨[]⟩ = true ∧
+    setTestSet (.before false false none) ⟨[⟨0, 1⟩, ⟨6, 7⟩], false⟩ ⟨[⟨3, 4⟩], false⟩ ⟨[]⟩ = false := by decide
+
 /-! ### Non-vacuity: concrete instances on which the hypotheses hold and the tests are not constant -/
 
 example : test (.overlaps false false) ⟨2, 5⟩ ⟨4, 9⟩ ⟨[]⟩ = true ∧ test (.overlaps false false) ⟨2, 4⟩ ⟨4, 9⟩ ⟨[]⟩ = false := by decide
